@@ -1,29 +1,44 @@
 """./check configuration for C08 (hostsfile.Parse and DefaultStorage)."""
 
 PROP = dict(
-    technique='Lean fold over scanner lines (exact delivery/reporting), association-list refinement of DefaultStorage to first-seen-order specs; differential tie under five reader fragmentations',
     module="GolibsVerif.Theorems.C08", namespace="GolibsVerif.C08",
+    technique='Lean fold over scanner lines (exact delivery/reporting), model of bufio.Scanner.Scan over arbitrary fragmentation scripts (fragmentation independence by induction), association-list refinement of DefaultStorage to first-seen-order specs; differential tie under five reader fragmentations and of the real Scanner over scripted readers',
+    modules=["GolibsVerif.Theorems.C08", "GolibsVerif.Theorems.C08Scan"],
     rule="(a) whole hosts files (0..12 lines from the C07 grammar, LF / CRLF / missing final newline / lone CR, lines that force the "
          "scanner buffer to grow) run through the real Parse with a plain Set and with a HandleSet, named and unnamed readers, under five "
          "reader fragmentations (whole, 1-byte reads, random chunks, bursts of <100 (0,nil) reads, data+EOF in one call) and three "
-         "buffers, optionally ending in a read error; (b) scripts of 1..14 Adds on two DefaultStorages (case variants incl. Kelvin sign, "
+         "buffers, optionally ending in a read error; (a') the real bufio.Scanner (ScanLines, buffer as in Parse, capacities 0..70000) over "
+         "scripted readers (CR/LF/CRLF mixes, unterminated last line, empty stream, hosts files, lines of 65534..65537 bytes; scripts of "
+         "1-byte reads, random chunks, bursts of 1..100 and of >= 101 empty reads, data together with EOF, error after k bytes, reads "
+         "larger than the room) against the model of Scanner.Scan, tokens and Err() kind; (b) scripts of 1..14 Adds on two DefaultStorages (case variants incl. Kelvin sign, "
          "dotted I, final sigma, invalid UTF-8; repeated addresses; records without names) observed after every step by ByAddr / ByName "
          "/ sorted RangeNames / RangeAddrs / Equal; non-trivial = at least one record is delivered / at least one query returns data; "
          "distinct = distinct case line",
-    trusted=["contract SCAN-1: bufio.Scanner with bufio.ScanLines yields scanLines(stream) whatever the read fragmentation, for lines "
-             "< 64 KiB and < 100 consecutive empty reads (sampled: every C08.parse case runs the real scanner under five fragmentations, "
-             "std.scanlines compares the token function itself)",
+    trusted=["the model of bufio.Scanner.Scan / ScanLines in Go/Scanner.lean (buffer window as lengths, shifting, growth, ErrTooLong, the "
+             "read loop with maxConsecutiveEmptyReads, setErr, atEOF = (s.err != nil)) corresponds to $GOROOT/src/bufio/scan.go (sampled: "
+             "C08.std.scan runs the real scanner over scripted readers; every C08.parse case runs it under five fragmentations); "
+             "the former contract SCAN-1 is now the theorem scan_fragmentation_independent",
+             "a reader returns 0 <= n <= len(p) (the ErrBadReadCount branch is dead for the scripted reader) and is otherwise arbitrary: "
+             "every run of a reader is the run of the script of the results it returned",
              "contract LOWER-1: strings.ToLower is a function; its answers for every name of a script travel with the case",
              "idna.ToASCII as in C07 (oracle table); the C07 model of UnmarshalText",
              "Go maps are association lists; map iteration order is not modelled (Range outputs are sorted before comparison)",
              "*orderedSet pointers held in the maps are not shared between keys (true of Add: every pointer is created for one key)"],
     assumptions=["the storage was created by NewDefaultStorage (non-nil maps)",
-                 "lines of 64 KiB or more (bufio.ErrTooLong) are outside SCAN-1 and outside the model",
+                 "the fragmentation theorems are for streams whose lines (CR included, LF excluded) are shorter than bufio.MaxScanTokenSize = 65536 "
+                 "and scripts without 101 consecutive (0, nil) reads before the end of input; at 65536 the outcome really depends on the "
+                 "fragmentation (token vs ErrTooLong, corpus witnesses); the model covers these cases, the theorems do not",
                  "DefaultStorage.Add is modelled with the minimal repair of defect #6 (early return for a record without names)"],
     level_text="Lean theorems over executable models of Parse (as the fold over the scanner's tokens) and of DefaultStorage (association "
-               "lists): exact delivery/reporting for every stream and both kinds of destination, refinement of ByAddr/ByName to "
+               "lists) and of bufio.Scanner.Scan with ScanLines reading from an arbitrary fragmentation script: exact delivery/reporting for "
+               "every stream and both kinds of destination, independence of Parse and of the scanner from the read fragmentation and the "
+               "buffer (induction over arbitrary scripts), the same for a failing and for a stalling reader, refinement of ByAddr/ByName to "
                "first-seen-order de-duplication for every sequence of Adds, agreement of the two indexes, absence of duplicates, "
                "no-op of nameless records; tied to the Go code by running both on generated files and Add scripts on every check",
-    level_note="theorems at full strength over the model; SCAN-1 and LOWER-1 are named contracts (sampled); trusted: Lean kernel, the "
+    level_note="theorems at full strength over the model (incl. rangeNames_spec/_perm, rangeAddrs_spec, range_early_stop, "
+               "rangeAddrs_early_stop, equal_nil, equal_decides, equal_iff_byAddr, equal_iff, equal_equiv, equal_byName_perm and the "
+               "machine-checked counterexample equal_not_byName: Equal does not imply equal ByName answers, only equal up to order; the "
+               "early-stop loop `rangeLoop` is proved about but not run against the Go code); SCAN-1 is a theorem over the Scanner "
+               "model (Theorems/C08Scan.lean), LOWER-1 is a named contract (sampled); trusted: Lean kernel, the "
                "differential correspondence (sampled), the C07 model",
 )
